@@ -30,6 +30,8 @@ from . import bootstrap
 
 VERIF = bootstrap.VERIF
 KNOWN_FILE = os.path.join(VERIF, 'known_findings.json')
+# development only: tools/par_mutants.py redirects evidence/replays of runs against scratch trees
+OUT = os.path.abspath(os.environ.get('RV_OUT', VERIF))
 NSHARDS = int(os.environ.get('RV_SHARDS', '16'))
 THOROUGH_SCALE = float(os.environ.get('RV_THOROUGH_SCALE', '4'))
 CASE_CPU_S = float(os.environ.get('RV_CASE_CPU', '10'))
@@ -261,7 +263,7 @@ class _Merged:
 
 def finish(module, tier, seed, merged, t0, known_lines):
     prop = module.PROPERTY
-    os.makedirs(os.path.join(VERIF, 'evidence'), exist_ok=True)
+    os.makedirs(os.path.join(OUT, 'evidence'), exist_ok=True)
     reasons = []
     if merged['harness_errors']:
         reasons.append('harness errors: %d (first: %s)' % (
@@ -281,14 +283,14 @@ def finish(module, tier, seed, merged, t0, known_lines):
         if v['key'] in seen:
             continue
         seen.add(v['key'])
-        d = os.path.join(VERIF, 'replays', prop)
+        d = os.path.join(OUT, 'replays', prop)
         os.makedirs(d, exist_ok=True)
         name = hashlib.blake2b(canon([v['key'], v['kind'], v['case']]).encode(), digest_size=6).hexdigest()
         path = os.path.join(d, name + '.json')
         with open(path, 'w') as f:
             json.dump({'property': prop, 'key': v['key'], 'kind': v['kind'], 'case': v['case'],
                        'detail': v['detail'], 'seed': seed, 'tier': tier}, f, indent=1, default=repr)
-        vio_paths.append((v['key'], os.path.relpath(path, VERIF)))
+        vio_paths.append((v['key'], os.path.relpath(path, OUT)))
 
     nvio = sum(merged['violation_keys'].values())
     coverage = {
@@ -312,7 +314,7 @@ def finish(module, tier, seed, merged, t0, known_lines):
         'wall_s': round(time.time() - t0, 3), 'violations': nvio,
         'verdict': 'violated' if nvio else ('inconclusive' if reasons else 'held'),
     }
-    with open(os.path.join(VERIF, 'evidence', prop + '.json'), 'w') as f:
+    with open(os.path.join(OUT, 'evidence', prop + '.json'), 'w') as f:
         json.dump(evidence, f, indent=1, default=repr)
 
     for line in known_lines:
